@@ -6,9 +6,8 @@ Abstractions
 * a transaction is a record: `id` stands for `tx.Hash()`, accounts are numbers
   (`zeroAcct` = the zero Uint160, `notaryAcct` = nativehashes.Notary);
 * Go maps are total functions into `Option` (the code never ranges over a map);
-* uint256 fee arithmetic is `Nat`; `SetFromBig` truncates (`% U256`), the two `SubUint64`
-  sites wrap (`subW`); the uint256 additions (l.210, l.225) are plain `Nat` additions
-  (they cannot wrap while balances stay below 2^256 - 2^64, see props/C08.json);
+* uint256 fee arithmetic is `Nat` with explicit wrap-around: `SetFromBig` truncates (`% U256`), the two
+  `SubUint64` sites use `subW`, the additions at l.210 and l.225 use `addW`;
 * a nil-map-entry dereference / index-out-of-range panic sets `panicked`;
 * locks, events, metrics callback, blockStamp/resend and `data` are not modelled.
 -/
@@ -95,6 +94,9 @@ def getPayerFee (p : Payer) (fees : Payer → Option Fee) (feer : Feer) : Fee ×
   | some f => (f, true)
   | none => ({ balance := feer.balance p.1 p.2 % U256, feeSum := 0 }, false)
 
+/-- `uint256.Add` / `AddUint64` -/
+def addW (a b : Nat) : Nat := (a + b) % U256
+
 /-- `uint256.SubUint64` -/
 def subW (a b : Nat) : Nat := (a + U256 - b % U256) % U256
 
@@ -103,7 +105,7 @@ def checkBalance (t : Tx) (b : Fee) : Nat × Option Err :=
   let txFee := t.fee
   if b.balance < txFee then (txFee, some .funds)
   else
-    let txFee := txFee + b.feeSum
+    let txFee := addW txFee b.feeSum
     if b.balance < txFee then (txFee, some .conflict) else (txFee, none)
 
 /-- mem_pool.go:196 `tryAddSendersFee`. -/
@@ -117,14 +119,21 @@ def tryAddSendersFee (mp : Pool) (t : Tx) (feer : Feer) (needCheck : Bool) : Poo
     | (_, some _) => (mp, false)
     | (newFeeSum, none) => ({ mp with fees := upd mp.fees p (some { payerFee with feeSum := newFeeSum }) }, true)
   else
-    ({ mp with fees := upd mp.fees p (some { payerFee with feeSum := payerFee.feeSum + t.fee }) }, true)
+    ({ mp with fees := upd mp.fees p (some { payerFee with feeSum := addW payerFee.feeSum t.fee }) }, true)
 
-/-- mem_pool.go:669 `removeConflictsOf`: loop body for one Conflicts attribute. -/
+/-- mem_pool.go:673-683: the new value of `mp.conflicts[conflictsHash]` after the loop body of
+`removeConflictsOf` (`none` = the key is deleted / stays absent). -/
+def stepEntry (id : Nat) : Option (List Nat) → Option (List Nat)
+  | some [_] => none                                  -- len == 1: delete
+  | some l => if id ∈ l then some (l.erase id) else some l
+  | none => none
+
+/-- mem_pool.go:669 `removeConflictsOf`: loop body for one Conflicts attribute, as a map update.
+(Written pointwise — `fun x => …` with a single look-up of `c` — so that the native driver evaluates a
+look-up in time linear in the number of updates; a definition that inspects `c h` before returning the
+updated function is eta-expanded by the compiler and re-evaluates `c h` on every look-up.) -/
 def removeConflictStep (id : Nat) (c : Nat → Option (List Nat)) (h : Nat) : Nat → Option (List Nat) :=
-  match c h with
-  | some [_] => upd c h none                        -- len == 1: delete
-  | some l => if id ∈ l then upd c h (some (l.erase id)) else c
-  | none => c
+  fun x => if x = h then stepEntry id (c h) else c x
 
 def removeConflictsOf (c : Nat → Option (List Nat)) (t : Tx) : Nat → Option (List Nat) :=
   t.conflicts.foldl (removeConflictStep t.id) c
@@ -258,10 +267,10 @@ def removeAll (mp : Pool) : List Tx → Pool
   | [] => mp
   | c :: cs => removeAll (removeInternal mp c.id) cs
 
-/-- mem_pool.go:339-349: bookkeeping for an inserted transaction. -/
-def addConflictEntries (c : Nat → Option (List Nat)) (id : Nat) : List Nat → Nat → Option (List Nat)
-  | [] => c
-  | h :: hs => addConflictEntries (upd c h (some ((c h).getD [] ++ [id]))) id hs
+/-- mem_pool.go:344-347 (and 448-451): `mp.conflicts[hash] = append(mp.conflicts[hash], t.Hash())` for every
+Conflicts attribute of the inserted transaction, as one pointwise map update (`hs.count x` appends). -/
+def addConflictEntries (c : Nat → Option (List Nat)) (id : Nat) (hs : List Nat) : Nat → Option (List Nat) :=
+  fun x => if hs.count x = 0 then c x else some ((c x).getD [] ++ List.replicate (hs.count x) id)
 
 /-- mem_pool.go:251-261: an OracleResponse with the id of a pooled one replaces it only with a
 higher network fee; the flag is `false` for ErrOracleResponse. -/
